@@ -48,6 +48,30 @@ theorem spec_decodes_enc (d : Bytes) : specDec (encPy d) = some d.toList := by
     · have := specDec_encFrom d 0 (Nat.zero_le _)
       simpa using this
 
+/-- The encoder output is a sequence of valid chunks (runs of 2…128 equal bytes, literals of
+1…127 bytes) whose contents concatenate to the input. -/
+theorem enc_chunks (d : Bytes) :
+    ∃ cs : List Chunk, encPy d = cs.flatMap Chunk.emit ∧ cs.flatMap Chunk.content = d.toList ∧
+      ∀ c ∈ cs, c.Valid := by
+  unfold encPy
+  split
+  · rename_i h
+    have : d = #[] := Array.eq_empty_of_size_eq_zero h
+    subst this
+    exact ⟨[], rfl, rfl, by simp⟩
+  · split
+    · rename_i h0 h
+      refine ⟨[.lit [d[0]]], by simp [Chunk.emit], ?_, ?_⟩
+      · have h1 := drop_eq_cons d 0 (by omega)
+        have h2 : d.toList.drop 1 = [] := List.drop_eq_nil_of_le (by simp; omega)
+        simp only [List.drop_zero, Nat.zero_add] at h1
+        rw [h1, h2]; simp [Chunk.content]
+      · intro c hc
+        simp at hc; subst hc
+        exact ⟨by simp, by simp⟩
+    · have := encFrom_chunks d 0 (Nat.zero_le _)
+      simpa using this
+
 /-- The reserved header 0x80 is never emitted. -/
 theorem enc_no_noop (d : Bytes) : ∀ h ∈ headers (encPy d), h ≠ 128 := by
   unfold encPy
